@@ -138,7 +138,10 @@ class Path:
                 l = strip(l)
                 if isinstance(l, dict) and l.get('k') == 'ref' and l.get('d') == decl_id:
                     if x.get('k') == 'assign' and x.get('op') != '=':
-                        return j, {'k': 'bin', 'op': x['op'][:-1], 'l': {'k': 'prev', 'd': decl_id}, 'r': r}
+                        # compound assignment: previous value (reaching definition before j) combined with r
+                        pj, pe = self._reaching(fn, binding, j, decl_id)
+                        prev = pe if pe is not None else {'k': 'lit', 'v': 0, 'c': 0}
+                        return j, {'k': 'bin', 'op': x['op'][:-1], 'l': prev, 'r': r}
                     return j, r
             # in-place modification (`++it`, `it += n`, ...): a new, distinct value
             if x.get('k') == 'call' and x.get('op') in ('++', '--', '+=', '-=') and x.get('args'):
